@@ -161,7 +161,10 @@ def check_note_failure(rep: Report, prog: Program) -> None:
             rep.ok("R6.2")
     if not window_shape(rep, "R6.2", prog, f"{CB}._prune", 1, attr(SELF, "_window_s"), now_pos=2):
         rep.instance("R6.2", "_note_failure|inline-prune-loops")
-        if len(idioms) >= 2 and not unverified_loops(idioms):
+        helper_calls = {e.node.id for p in paths for x in prunes(p, spec, idioms, top) if x.how == "helper" and x.event is not None for e in [x.event]}
+        if len(helper_calls) >= 2 and not idioms:
+            rep.ok("R6.2")  # both windows are pruned through a helper of another shape (verified by windows.helper_prune_info)
+        elif len(idioms) >= 2 and not unverified_loops(idioms):
             rep.ok("R6.2")
         else:
             rep.fail("R6.2", "_note_failure|inline-prune-loops", f"no _prune helper and {len(idioms)} verified inline prune loops in _note_failure (two windows are pruned)", where=fi.where(), function=fi.qual)
